@@ -38,7 +38,7 @@ static void hook_malloc(const volatile void *p, size_t sz) { (void)sz; if(p) n_l
 static void hook_free(const volatile void *p) { if(p) n_live_blocks--; }
 
 /* ---- shared progress cell ---- */
-struct shared { volatile int step; volatile int uninit; };
+struct shared { volatile int step; volatile int uninit; volatile int trlen; char trace[8192]; };
 static struct shared *sh;
 
 /* =====================================================================================
@@ -131,9 +131,23 @@ static void w_emit_mouse(int type)
   tickit_term_emit_mouse(wterm, &info);
 }
 
+/* every client call, top-level or from inside a handler, is appended to the trace before it runs */
+static void trace_op(const char *op)
+{
+  size_t n = strlen(op);
+  int at = sh->trlen;
+  if(at + n + 2 >= sizeof sh->trace) return;
+  if(at) sh->trace[at++] = ',';
+  memcpy((char *)sh->trace + at, op, n); at += n;
+  sh->trace[at] = 0;
+  sh->trlen = at;
+}
+
 static void w_op(const char *op, int depth)
 {
   const char *s = op + 1;
+  if(op[0] == 'b') { char t[24]; size_t n = strcspn(op, "."); if(n > 20) n = 20; memcpy(t, op, n); t[n] = 0; trace_op(t); }
+  else if(op[0] != '-') trace_op(op);
   switch(op[0]) {
     case 'n': { int p = p_int(&s), f = p_int(&s);
       TickitWindow *w = tickit_window_new(W[p], WRECT, f); w_register(w); break; }
@@ -240,8 +254,7 @@ static void run_W(void)
   memset(W, 0, sizeof W);
   long left = n_live_blocks - base;
   int lsan = __lsan_do_recoverable_leak_check();
-  printf(" leak=%d%s\n", left != 0, sh->uninit ? " UNINIT" : "");
-  (void)lsan;
+  printf(" leak=%d%s tr=%s # lsan=%d\n", left != 0, sh->uninit ? " UNINIT" : "", sh->trlen ? (char *)sh->trace : "-", lsan);
 }
 
 /* =====================================================================================
@@ -280,7 +293,7 @@ static void classify(int status, const char *err, char *out, size_t outlen)
     snprintf(detail, sizeof detail, "ASan:%s@%s:%s", k, file, fn);
   }
   else if((e = strstr(err, "runtime error: "))) {
-    kind = "UB";
+    kind = strstr(e, "null pointer") ? "NULL" : "UB";
     e += strlen("runtime error: ");
     size_t n = strcspn(e, "\n"); if(n > 120) n = 120;
     snprintf(detail, sizeof detail, "UBSan:%.*s", (int)n, e);
@@ -297,7 +310,7 @@ static void classify(int status, const char *err, char *out, size_t outlen)
             for(char *p = detail; *p; p++) if(*p == ' ') *p = '_'; }
   }
   else snprintf(detail, sizeof detail, "exit%d", WEXITSTATUS(status));
-  snprintf(out, outlen, "%s %d # %s", kind, sh->step, detail);
+  snprintf(out, outlen, "%s %d tr=%s # %s", kind, sh->step, sh->trlen ? (char *)sh->trace : "-", detail);
 }
 
 static void run_T(void);
@@ -334,7 +347,7 @@ int main(void)
     fflush(stdout);
     int po[2], pe[2];
     if(pipe(po) || pipe(pe)) { printf("ERR pipe\n"); continue; }
-    sh->step = -1; sh->uninit = 0;
+    sh->step = -1; sh->uninit = 0; sh->trlen = 0; sh->trace[0] = 0;
     pid_t pid = fork();
     if(pid < 0) { printf("ERR fork\n"); continue; }
     if(pid == 0) {
